@@ -169,13 +169,18 @@ class Started:
 
     entry  "api": start_server(ServerConfig(...), certificate_auth_config=CertificateAuthConfig(rules) | None)
            "cli": nauyaca serve --config <toml>  ([server] certfile/keyfile/require_client_cert, [[certificate_auth.paths]])
+           "toml": start_server(cfg, ...) with cfg = ServerConfig.from_toml(<toml>) and the arguments `serve` derives from cfg
+    extra  further settings of the configuration file: [table, key, value written as TOML text] (entries "cli" and "toml")
     cert   "auto" (no certificate configured) or a kind of `server_cert`
     auth   None or a list of rules {"prefix": str, "require_cert": bool, "fps": None | [str, ...]}
     """
 
-    def __init__(self, entry: str, cert: str, rcc: bool, auth: list | None, docroot: str):
-        assert entry in ("api", "cli")
+    def __init__(self, entry: str, cert: str, rcc: bool, auth: list | None, docroot: str, extra: list | None = None):
+        assert entry in ("api", "cli", "toml")
+        assert not (extra and entry == "api")   # extra settings are lines of a configuration FILE
         self.entry, self.cert, self.rcc, self.auth, self.docroot = entry, cert, rcc, auth, docroot
+        self.extra = [tuple(e) for e in (extra or [])]   # (table, key, value as TOML text)
+        self.factory = None
         self.started = False
         self.error: str | None = None
         self.port: int | None = None
@@ -220,28 +225,63 @@ class Started:
             self._drain(loop)
             self.ready.set()
 
+    def toml_text(self, cf, kf) -> str:
+        """the configuration file of this start-up: what the harness needs ([server], rate limiting off, certificate_auth)
+        plus the extra settings, each table written once"""
+        tables: dict[str, list[str]] = {"server": [f"document_root = {_toml(self.docroot)}", 'host = "127.0.0.1"', "port = 1965"]}
+        if cf:
+            tables["server"] += [f"certfile = {_toml(cf)}", f"keyfile = {_toml(kf)}"]
+        if self.rcc:
+            tables["server"].append("require_client_cert = true")
+        tables["rate_limit"] = ["enabled = false"]
+        if self.auth is not None and not self.auth:
+            tables["certificate_auth"] = ["paths = []"]
+        for table, key, text in self.extra:
+            tables.setdefault(table, []).append(f"{key} = {text}")
+        lines: list[str] = []
+        for t, body in tables.items():
+            lines += [f"[{t}]", *body]
+        for r in (self.auth or []):
+            lines += ["[[certificate_auth.paths]]", f"prefix = {_toml(r['prefix'])}", f"require_cert = {_toml(r['require_cert'])}"]
+            if r.get("fps") is not None:
+                lines.append(f"allowed_fingerprints = {_toml(list(r['fps']))}")
+        return "\n".join(lines) + "\n"
+
+    def _write_toml(self, cf, kf) -> str:
+        d = tempfile.mkdtemp(prefix="nv-")
+        self._tmp.append(d)
+        path = os.path.join(d, "config.toml")
+        Path(path).write_text(self.toml_text(cf, kf))
+        return path
+
+    def _run_toml(self, cf, kf):
+        """what `serve --config` does, without the command line: ServerConfig.from_toml, then start_server"""
+        from nauyaca.server.config import ServerConfig
+        from nauyaca.server.server import start_server
+
+        loop = asyncio.new_event_loop()
+        loop.set_exception_handler(lambda _l, _c: None)
+        asyncio.set_event_loop(loop)
+        try:
+            cfg = ServerConfig.from_toml(Path(self._write_toml(cf, kf)))
+            task = loop.create_task(start_server(cfg, enable_rate_limiting=cfg.enable_rate_limiting, rate_limit_config=cfg.get_rate_limit_config(),
+                                                 access_control_config=cfg.get_access_control_config(), log_level="CRITICAL", log_file=Path(os.devnull),
+                                                 certificate_auth_config=cfg.get_certificate_auth_config()))
+            loop.run_until_complete(task)
+        except asyncio.CancelledError:
+            pass
+        except BaseException as e:  # noqa: BLE001
+            self._exc = e
+        finally:
+            self._drain(loop)
+            self.ready.set()
+
     def _run_cli(self, cf, kf):
         from typer.testing import CliRunner
 
         import nauyaca.__main__ as M
 
-        d = tempfile.mkdtemp(prefix="nv-")
-        self._tmp.append(d)
-        lines = ["[server]", f"document_root = {_toml(self.docroot)}", 'host = "127.0.0.1"', "port = 1965"]
-        if cf:
-            lines += [f"certfile = {_toml(cf)}", f"keyfile = {_toml(kf)}"]
-        if self.rcc:
-            lines.append("require_client_cert = true")
-        lines += ["[rate_limit]", "enabled = false"]
-        if self.auth is not None:
-            if not self.auth:
-                lines += ["[certificate_auth]", "paths = []"]
-            for r in self.auth:
-                lines += ["[[certificate_auth.paths]]", f"prefix = {_toml(r['prefix'])}", f"require_cert = {_toml(r['require_cert'])}"]
-                if r.get("fps") is not None:
-                    lines.append(f"allowed_fingerprints = {_toml(list(r['fps']))}")
-        path = os.path.join(d, "config.toml")
-        Path(path).write_text("\n".join(lines) + "\n")
+        path = self._write_toml(cf, kf)
         try:
             res = CliRunner().invoke(M.app, ["serve", "--config", path, "--log-level", "CRITICAL", "--log-file", os.devnull])
             self._cli_out = (res.output or "")[-600:]
@@ -296,7 +336,7 @@ class Started:
             s.setsockopt(socket.SOL_SOCKET, socket.SO_REUSEADDR, 1)
             s.bind(("127.0.0.1", 0))
             srv = await orig(loop_self, protocol_factory, sock=s, ssl=ssl, **kw)
-            st.ssl_arg, st.kw, st.loop = ssl, kw, loop_self
+            st.ssl_arg, st.kw, st.loop, st.factory = ssl, kw, loop_self, protocol_factory
             loop_self.set_exception_handler(lambda _l, _c: None)
             st.port = s.getsockname()[1]
             st.started = True
@@ -304,15 +344,15 @@ class Started:
             return srv
 
         be.BaseEventLoop.create_server = create_server
-        self.thread = threading.Thread(target=self._run_api if self.entry == "api" else self._run_cli, args=(cf, kf), daemon=True)
+        self.thread = threading.Thread(target={"api": self._run_api, "cli": self._run_cli, "toml": self._run_toml}[self.entry], args=(cf, kf), daemon=True)
         old_out, old_err = sys.stdout, sys.stderr
-        if self.entry == "api":
+        if self.entry != "cli":
             sys.stdout = io.StringIO()   # "[Server] WARNING: Using self-signed certificate" prints
         try:
             self.thread.start()
             ok = self.ready.wait(30)
         finally:
-            if self.entry == "api":
+            if self.entry != "cli":
                 sys.stdout, sys.stderr = old_out, old_err
             tempfile.tempdir = old_tmp
         if not ok:
@@ -327,6 +367,31 @@ class Started:
         if not self.started:
             return "-"
         return "std" if self.ssl_arg is not None else "no-ssl-arg"
+
+    def listener_context(self):
+        """(kind, context object) of the running listener: the ssl= argument of create_server, or the PyOpenSSL context the
+        protocol factory hands to TLSServerProtocol"""
+        if self.ssl_arg is not None and self.ssl_arg != "unset":
+            return "std", self.ssl_arg
+        try:
+            ctx = getattr(self.factory(), "ssl_context", None)
+        except Exception:  # noqa: BLE001
+            ctx = None
+        return ("pyo", ctx) if ctx is not None else ("none", None)
+
+    def lower_security_level(self) -> bool:
+        """Take OpenSSL's security level (system configuration, not nauyaca's) out of the picture ON THE RUNNING LISTENER:
+        afterwards the protocol-version range nauyaca gave the context is the only barrier against old versions."""
+        from . import tls_paths
+
+        kind, ctx = self.listener_context()
+        if ctx is None:
+            return False
+        try:
+            tls_paths.lower_security_level(kind, ctx)
+            return True
+        except Exception:  # noqa: BLE001
+            return False
 
     def __exit__(self, *a):
         import asyncio.base_events as be
@@ -348,6 +413,89 @@ class Started:
         for d in self._tmp:
             shutil.rmtree(d, ignore_errors=True)
         __import__('harness.core', fromlist=['core']).configure_harness_logging()      # put the harness logging configuration back
+        return False
+
+
+
+# ------------------------------------------------------------------------------------------------
+# the settings a configuration file can carry, enumerated from the source
+# ------------------------------------------------------------------------------------------------
+def config_schema() -> list[dict]:
+    """Every (table, key) the working tree's configuration loader reads from a TOML document, found in the syntax tree of
+    nauyaca/server/config.py: `T = <doc>.get("table", {})` / `<doc>["table"]` names a table, `T.get("key"[, default])` /
+    `T["key"]` a key of it.  Returns [{'table', 'key', 'default': literal | None, 'has_default': bool}] in source order."""
+    import ast
+    import inspect
+
+    import nauyaca.server.config as C
+
+    tree = ast.parse(inspect.getsource(C))
+    tables: dict[str, str] = {}     # variable name -> table name
+
+    def str_const(n):
+        return n.value if isinstance(n, ast.Constant) and isinstance(n.value, str) else None
+
+    def access(n):
+        """(object expression, key, default node | None, has default) for `x.get("k"[, d])` and `x["k"]`"""
+        if isinstance(n, ast.Call) and isinstance(n.func, ast.Attribute) and n.func.attr == "get" and n.args and str_const(n.args[0]) is not None:
+            return n.func.value, str_const(n.args[0]), (n.args[1] if len(n.args) > 1 else None), len(n.args) > 1
+        if isinstance(n, ast.Subscript) and str_const(n.slice) is not None:
+            return n.value, str_const(n.slice), None, False
+        return None
+
+    for n in ast.walk(tree):
+        if isinstance(n, (ast.Assign, ast.AnnAssign)) and n.value is not None:
+            a = access(n.value)
+            targets = n.targets if isinstance(n, ast.Assign) else [n.target]
+            if a and (a[2] is None or isinstance(a[2], ast.Dict)) and len(targets) == 1 and isinstance(targets[0], ast.Name):
+                if a[2] is not None or isinstance(n.value, ast.Subscript):
+                    tables[targets[0].id] = a[1]
+    out, seen = [], set()
+    for n in ast.walk(tree):
+        a = access(n)
+        if not a:
+            continue
+        obj, key, dflt, has = a
+        table = None
+        if isinstance(obj, ast.Name) and obj.id in tables:
+            table = tables[obj.id]
+        else:   # chained: data.get("tls", {}).get("min_version")
+            inner = access(obj)
+            if inner and (inner[2] is None or isinstance(inner[2], ast.Dict)) and not (isinstance(inner[0], ast.Name) and inner[0].id in tables):
+                table = inner[1]
+        if table is None or (table, key) in seen:
+            continue
+        seen.add((table, key))
+        try:
+            default = ast.literal_eval(dflt) if dflt is not None else None
+        except Exception:  # noqa: BLE001  (a named constant)
+            default = None
+        if not isinstance(default, (str, int, float, bool, list, type(None))):
+            default = None
+        out.append({"table": table, "key": key, "default": default, "has_default": has, "line": getattr(n, "lineno", 0)})
+    out.sort(key=lambda e: e["line"])
+    for e in out:
+        e.pop("line")
+    return out
+
+
+_ACCEPT_DIR: list[str] = []
+
+
+def config_accepts(settings: list, docroot: str) -> bool:
+    """does the working tree's loader take a configuration file with these extra settings ([table, key, TOML text])?"""
+    from nauyaca.server.config import ServerConfig
+
+    from .. import core as _core
+
+    if not _ACCEPT_DIR:
+        _ACCEPT_DIR.append(_core.mkdtemp("nv-c20accept-"))
+    path = os.path.join(_ACCEPT_DIR[0], "config.toml")
+    try:
+        Path(path).write_text(Started("toml", "auto", False, None, docroot, extra=settings).toml_text(None, None))
+        ServerConfig.from_toml(Path(path))
+        return True
+    except BaseException:  # noqa: BLE001
         return False
 
 
